@@ -31,6 +31,7 @@ def case_exact(case):
     z = C05.DATA[:n].copy()
     ext_c, ext_t = C05.ext_values(variant, n, T.shape[1])
     exact = case["nugget"] > 0
+    cerr_modes = ["nugget"] + (["zero", "zeros"] if case["nugget"] > 0 else [])
     procs = [("const" if variant in ("Simple", "GenericDrift") else "none", "none", "none")]
     if variant in ("Simple", "Ordinary", "Universal") + C05.EXTV:
         procs += [("const" if variant == "Simple" else "none", "call", "none"), ("call" if variant == "Simple" else "none", "none", "ln"), ("none", "call", "bc")]
@@ -64,6 +65,20 @@ def case_exact(case):
                 r.true("simple kriging variance <= sill", bool(np.all(vt <= ref.sill * (1 + 1e-10))), info=vt.tolist(), **extra)
             # far away: simple kriging variance tends to the sill, estimate to the mean
             done += 1
+    # zero measurement error stated explicitly (scalar 0 / array of zeros) for a model with nugget, exact=False:
+    # the values are reproduced (the variance at the stations is then the nugget, not 0)
+    for cm in cerr_modes[1:]:
+        ce = 0.0 if cm == "zero" else np.zeros(n)
+        k, ref = C05.build_pair(case, cp, z, exact=False, cond_err=ce, pinv="pinv", proc=procs[0], cond_ext=ext_c)
+        if k is None or not np.all(np.isfinite(ref.ztilde())):
+            continue
+        kw = {"ext_drift": ext_c} if variant in C05.EXTV else {}
+        f, v = k(cp, **kw)
+        tol = max(1e-8, 1e2 * ref.tol(float(np.abs(z).max())))
+        r.close("explicit zero measurement error: field at a conditioning location == conditioning value", f, z, rtol=1e-8, atol=tol, cond_err=cm, **extra)
+        w_, est_, var_ = ref.solve(cp, ext_c)
+        r.close("explicit zero measurement error: variance == dense solution", v, np.maximum(var_, 0), rtol=1e-7, atol=1e3 * kr.EPS * ref.cond * ref.sill + 1e-12, cond_err=cm, **extra)
+        done += 1
     if not done:
         return r.done(skip="kriging system numerically singular (cond > 1e10)")
     return r.done(outcome=[n, case["kind"], variant], sub={"systems": done})
@@ -170,5 +185,8 @@ def run(chk):
     chk.run("duplicates", case_duplicates, dcases, rule="every layout x every way of duplicating one or two conditioning points with different values x pinv/pinvh: equals the de-duplicated layout carrying the mean value", max_skip_frac=0.6, chunk=8)
     depth = 3 if tier == "quick" else 4
     hcases = C05.refresh_cases(tier, gen, ["anis", "angles", "len", "var"], depth, nugget=0.0, mode="exact")
-    chk.run("exact_refresh", C05.case_refresh, hcases, rule=f"variant x geometry (2-D, 3-D, 2-D+time, lat-lon) x isotropic/anisotropic start x every history of length <= {depth} over in-place model changes {{anis, angles, len_scale, var}} and set_condition {{no argument, new values, new positions}} ending with a set_condition (object called before, caches warm), nugget 0: after every set_condition the field at the present conditioning locations equals the present values with zero variance", max_skip_frac=0.6, chunk=16)
+    # exact mode: the nugget may appear or change after construction (in-place change + refresh)
+    hx = C05.refresh_cases(tier, gen, ["nugget", "len", "var"], 2 if tier == "quick" else 3, nugget=0.0, mode="exact", exact=True)
+    hcases = hcases + [c for c in hx if "nugget" in c["hist"]]
+    chk.run("exact_refresh", C05.case_refresh, hcases, rule=f"variant x geometry (2-D, 3-D, 2-D+time, lat-lon) x isotropic/anisotropic start x every history of length <= {depth} over in-place model changes {{anis, angles, len_scale, var}} and set_condition {{no argument, new values, new positions}} ending with a set_condition (object called before, caches warm), nugget 0 (and, with exact=True, a nugget that is set after construction): after every set_condition the field at the present conditioning locations equals the present values with zero variance", max_skip_frac=0.6, chunk=16)
     chk.assume("numerically singular de-duplicated systems (cond > 1e10) are skipped by a counted guard; exactness is judged with tolerance max(1e-8, 1e5*eps*cond*|data|)")
